@@ -6,12 +6,18 @@ from pyab_experiment.codegen.python.python_generator import PythonCodeGen
 from pyab_experiment.data_structures.syntax_tree import ExperimentAST
 from pyab_experiment.language.grammar import ExperimentParser
 from pyab_experiment.language.lexer import ExperimentLexer
+from pyab_experiment.sly.lex import LexError
 
 
 def parse_source(text: str) -> ExperimentAST:
     lexer = ExperimentLexer()
     parser = ExperimentParser()
-    return parser.parse(lexer.tokenize(text))
+    ast = parser.parse(lexer.tokenize(text))
+    # the lexer swaps its class while inside a block comment: if it is not back
+    # in its initial state at the end of the text, a comment was never closed
+    if type(lexer) is not ExperimentLexer:
+        raise LexError("Unterminated block comment", "", len(text))
+    return ast
 
 
 def generate_code(text: str, expose_internal_fn: bool = False) -> str:
